@@ -3,8 +3,11 @@
 package webdav
 
 import (
+	"net/url"
 	"path/filepath"
 	"strings"
+
+	"github.com/emersion/go-webdav/internal"
 
 	vrt "github.com/emersion/go-webdav/internal/zz_verifrt"
 )
@@ -57,4 +60,42 @@ func VerifH_C03_LocalPath() {
 	p2, err := fs.localPath(ext)
 	vrt.Assert(err == nil && p2 == p, "reported path addresses the same resource when sent back")
 	vrt.Reach("roundtrip")
+}
+
+// VerifH_C03_HrefBack: the path reported for a member whose name is any byte
+// string (length <= hreflen, every byte value except NUL and the separator)
+// goes into a multi-status as the text Href.MarshalText produces; a client
+// that sends this text back as the request URI (parsed the way net/http
+// parses a request line) addresses the same resource. Real net/url escaping
+// and parsing code on exploded bytes.
+func VerifH_C03_HrefBack() {
+	n := 1 + vrt.Choose("len", vrt.Param("hreflen", 2))
+	name := vrt.StrN("name", n)
+	for i := 0; i < n; i++ {
+		vrt.Assume(name[i] != '/' && name[i] != 0)
+	}
+	vrt.Assume(name != "." && name != "..")
+	fs := LocalFileSystem("/srv/dav")
+	local := "/srv/dav/" + name
+	if vrt.Choose("nested", 2) == 1 {
+		local = "/srv/dav/d/" + name
+	}
+	ext, err := fs.externalPath(local)
+	vrt.Assert(err == nil, "a member of the served directory has a reportable path")
+	if err != nil {
+		return
+	}
+	text, err := (&internal.Href{Path: ext}).MarshalText()
+	vrt.Assert(err == nil, "the reported path can be written as an href")
+	if err != nil {
+		return
+	}
+	u, err := url.ParseRequestURI(string(text))
+	vrt.Assert(err == nil, "the reported href is a valid request URI")
+	if err != nil {
+		return
+	}
+	back, err := fs.localPath(u.Path)
+	vrt.Assert(err == nil && back == local, "the reported href addresses the same resource when sent back as a request path")
+	vrt.Reach("href-back")
 }
